@@ -145,7 +145,31 @@ def with_first(sig, name):
     return s
 
 
-CALLABLES = ['function', 'method', 'classmethod', 'staticmethod', 'init', 'unbound']
+CALLABLES = ['function', 'method', 'classmethod', 'staticmethod', 'init', 'unbound',
+             'method_raw', 'classmethod_raw', 'init_raw']
+
+
+def py_bound(sig):
+    """inspect._signature_bound_method on a generator-level signature; None = ValueError"""
+    s = dict(sig)
+    if sig['po']:
+        s['po'] = sig['po'][1:]
+    elif sig['pk']:
+        s['pk'] = sig['pk'][1:]
+    elif sig['vp'] is None:
+        return None
+    return s
+
+
+def raw_sig(sig, rng):
+    """parameter list of a method written without a separate `self`: the first named parameter
+    plays that role, or a leading *args swallows it.  Python must have a bound signature."""
+    s = dict(sig)
+    if s['vp'] is not None and rng.random() < 0.6:
+        s['po'], s['pk'] = [], []
+    if py_bound(s) is None:
+        s['vp'] = P('args')
+    return s
 
 
 def definition(kind, sig, ret, doc=None):
@@ -170,6 +194,16 @@ def definition(kind, sig, ret, doc=None):
         d = with_first(sig, 'self')
         src = 'class C:\n' + ind('def __init__(%s):\n%s' % (sig_text(d), body))
         return src, 'C', 'C', d, True
+    # the *_raw kinds: `sig` is the definition's own parameter list (see raw_sig)
+    if kind == 'method_raw':
+        src = 'class C:\n' + ind('def m(%s)%s:\n%s' % (sig_text(sig), arrow, body))
+        return src, 'C().m', 'm', sig, True
+    if kind == 'classmethod_raw':
+        src = 'class C:\n    @classmethod\n' + ind('def m(%s)%s:\n%s' % (sig_text(sig), arrow, body))
+        return src, 'C.m', 'm', sig, True
+    if kind == 'init_raw':
+        src = 'class C:\n' + ind('def __init__(%s):\n%s' % (sig_text(sig), body))
+        return src, 'C', 'C', sig, True
     raise ValueError(kind)
 
 
@@ -707,11 +741,19 @@ def build_cases(ctx):
             sigs.append(rng.choice(sig_variants(rng.choice(shapes(6)), rng, False)))
         kinds_for = lambda i: CALLABLES
         calls_per = 1
-    for i, sig in enumerate(sigs):
+    for i, sig0 in enumerate(sigs):
         for kind in kinds_for(i):
-            ret = 'int' if (kind != 'init' and rng.random() < 0.25) else ''
+            sig = sig0
+            ret = 'int' if (not kind.startswith('init') and rng.random() < 0.25) else ''
+            feature = 'plain'
+            if kind.endswith('_raw'):
+                sig = raw_sig(sig, rng)
+                names = sig_names(py_bound(sig))
+                if not sig['po'] and not sig['pk']:
+                    feature = 'bound-var-positional-first'
+            else:
+                names = sig_names(sig)
             def_src, callee, fname, dsig, bound = definition(kind, sig, ret)
-            names = sig_names(sig)
             pre = def_src + 'xv = 1\nxs = ()\nkws = {}\n'
             line = pre.count('\n') + 1
             for _ in range(calls_per):
@@ -722,7 +764,7 @@ def build_cases(ctx):
                     cases.append({'kind': kind, 'sig': sig, 'dsig': dsig, 'bound': bound, 'fname': fname,
                                   'ret': ret, 'def_src': def_src, 'callee': callee,
                                   'src': pre + text, 'line': line, 'col': col,
-                                  'prev_specs': prev, 'cur': cur, 'mode': mode})
+                                  'prev_specs': prev, 'cur': cur, 'mode': mode, 'feature': feature})
     return cases
 
 
@@ -807,7 +849,7 @@ def compare_case(ctx, c, m, parsed_defs):
         parsed_defs[dk] = True
         import parso
         mod = parso.parse(c['def_src'])
-        fd = find_funcdef(mod, '__init__' if c['kind'] == 'init' else c['fname'])
+        fd = find_funcdef(mod, '__init__' if c['kind'].startswith('init') else c['fname'])
         try:
             cmp('ptoks', ptoks_of(fd), m['toks'])
         except Unmodelled as e:
@@ -921,6 +963,26 @@ def stream_pybind(ctx, reqs, metas):
         metas.append(('pybind', {'def': 'def f(%s)' % sig_text(sig), 'npos': npos, 'kws': kws, 'cur': list(cur)}, want))
 
 
+# ------------------------------------------------------------------ stream: pybound
+
+def stream_pybound(ctx, reqs, metas):
+    """the Python side of bound_eq_pyBound (`pyBound`) against inspect.signature of the bound object:
+    every shape up to 4 parameters (thorough: 6) as method / classmethod / __init__, no extra self"""
+    rng = ctx.subrng('pybound')
+    for sh in shapes(ctx.size(4, 6)):
+        sig = sig_variants(sh, rng, False)[0]
+        kind = rng.choice(['method_raw', 'classmethod_raw', 'init_raw']) if ctx.quick else None
+        for k in ([kind] if kind else ['method_raw', 'classmethod_raw', 'init_raw']):
+            def_src, callee, _, _, _ = definition(k, sig, '')
+            obj, _ = exec_def(def_src, callee)
+            try:
+                want = [[p.name, int(p.kind)] for p in inspect.signature(obj).parameters.values()]
+            except ValueError:
+                want = None
+            reqs.append({'op': 'pybound', 'sig': sig})
+            metas.append(('pybound', {'source': def_src, 'callee': callee}, want))
+
+
 # ------------------------------------------------------------------ stream: docstrings
 
 DOCS = [
@@ -1029,12 +1091,18 @@ def stream_probes(ctx):
          'prev_specs': [], 'cur': {'t': 'empty'}, 'mode': 'prefix', 'feature': 'dunder-parameter'}
     c['real'] = real_case(c['src'], 2, 2)
     run_oracle(ctx, c, objs)
-    # a bound method whose first parameter is *args: Python keeps *args (self lands in it)
-    for def_src, callee in [('class C:\n    def m(*args, k=1): pass\n', 'C().m'),
-                            ('class C:\n    def __init__(*args, **kw): pass\n', 'C')]:
-        call = callee + '('
+    # a bound method whose first parameter is *args: Python keeps *args (self lands in it).
+    # (formerly the findings C11-bound-star-args-dropped-*; fixed by _remove_bound_param)
+    for def_src, callee, tail, prev, cur in [
+            ('class C:\n    def m(*args, k=1): pass\n', 'C().m', '', [], {'t': 'empty'}),
+            ('class C:\n    def __init__(*args, **kw): pass\n', 'C', '', [], {'t': 'empty'}),
+            ('class C:\n    @classmethod\n    def m(*args, k=1): pass\n', 'C.m', '', [], {'t': 'empty'}),
+            ('class C:\n    def m(*args, k=1): pass\n', 'C().m', '1, k=', [('pos', '1', None)], {'t': 'kwOpen', 's': 'k'}),
+            ('class C:\n    def m(*args, k=1): pass\n', 'C().m', '1, 2', [('pos', '1', None)], {'t': 'expr'}),
+            ('class C:\n    def __init__(*args, **kw): pass\n', 'C', '1, z=', [('pos', '1', None)], {'t': 'kwOpen', 's': 'z'})]:
+        call = callee + '(' + tail
         c = {'kind': 'method', 'def_src': def_src, 'callee': callee, 'src': def_src + call,
-             'line': def_src.count('\n') + 1, 'col': len(call), 'prev_specs': [], 'cur': {'t': 'empty'},
+             'line': def_src.count('\n') + 1, 'col': len(call), 'prev_specs': prev, 'cur': cur,
              'mode': 'prefix', 'feature': 'bound-var-positional-first'}
         c['real'] = real_case(c['src'], c['line'], c['col'])
         run_oracle(ctx, c, objs)
@@ -1099,6 +1167,7 @@ def run(ctx):
     metas = [('case', c, None) for c in cases]
     stream_kinds(ctx, reqs, metas)
     stream_pybind(ctx, reqs, metas)
+    stream_pybound(ctx, reqs, metas)
     stream_docs(ctx, reqs, metas)
     objs = {}
     for c in cases:
@@ -1127,6 +1196,13 @@ def run(ctx):
                 if ans != extra:
                     # the model of CPython is wrong: our machinery, not jedi
                     raise common.InfraError('pyBind disagrees with CPython: %r model=%r cpython=%r' % (meta, ans, extra))
+            elif stream == 'pybound':
+                ctx.count('pybound', json.dumps(meta, sort_keys=True), nontrivial=True,
+                          bucket='no-signature' if extra is None else 'n=%d' % len(extra),
+                          sample={'case': meta, 'inspect': extra})
+                if ans != extra:
+                    raise common.InfraError('pyBound disagrees with inspect.signature of the bound object: '
+                                            '%r model=%r inspect=%r' % (meta, ans, extra))
             elif stream == 'doc':
                 ctx.count('doc', json.dumps(meta, sort_keys=True), nontrivial=True, bucket=meta['feature'])
                 if ans != extra:
